@@ -889,7 +889,15 @@ class Interp:
         l = self.eval(e["l"], env)
         r = self.eval(e["r"], env)
         if op == "Div" and (self.types.get(e["ty"]) or {}).get("name") in INT_TYPES and isinstance(l, Num) and isinstance(r, Num):
-            # integer division floors: it is NOT multiplication by the inverse
+            # integer division floors: it is NOT multiplication by the inverse — except when it is exact: a constant c > 0 that divides
+            # every coefficient of an integer polynomial (integer-typed leaves, non-negative integer exponents, no guards)
+            ls, rs = l.expr.simplified(), r.expr.simplified()
+            if len(rs.terms) == 1 and not rs.terms[0].atoms and not rs.terms[0].binders and not rs.terms[0].guards:
+                c_ = rs.terms[0].coeff
+                if c_.is_Integer and c_ > 0 and ls.terms and all(
+                        t_.coeff.is_Integer and t_.coeff % c_ == 0 and not t_.guards and not t_.binders
+                        and all(getattr(x_, "is_Integer", False) and x_ >= 0 for _a, x_ in t_.atoms) for t_ in ls.terms):
+                    return Num(ls * Expr.const(1 / c_))
             return Num(Expr.atom(("call", "idiv", l.expr, r.expr)))
         return self.binop(op, l, r, e)
 
